@@ -44,8 +44,7 @@ for name in sorted(os.listdir(f"{VERIF}/selftest/benign")):
                                       "spec_drift_lines": len(re.findall(r"^SPEC-DRIFT", r.stdout, flags=re.M)),
                                       "error": (re.findall(r"^ERROR.*", r.stdout + r.stderr, flags=re.M) or [""])[0][:200],
                                       "wall_s": round(time.time() - t0)}
-                res[name] = entry
-                json.dump(res, open(out_path, "w"), indent=1)
+        res = json.load(open(out_path)) if os.path.exists(out_path) else {}     # another instance may have written meanwhile
         res[name] = entry
         json.dump(res, open(out_path, "w"), indent=1)
         print(name, entry["applies"], entry.get("suite"), {p: (c["rc"], c["clauses"], c["spec_drift_lines"]) for p, c in entry["checks"].items()}, flush=True)
